@@ -140,7 +140,7 @@ Proof.
   rewrite delete_node_limit in *. specialize (C3 Hl).
   unfold store. destruct f as [| | |b].
   - destruct (link_all _ _ _) as [trs tc]. cbn [size]. lia.
-  - exact Hs.
+  - lia.
   - lia.
   - destruct b; cbn; lia.
 Qed.
@@ -297,7 +297,7 @@ Proof.
       constructor; cbn [g_s g_stamp g_n]; [exact I1| |].
       * rewrite store_lru_none, Ht. exact A.
       * rewrite store_lru_none, Ht. exact B.
-    + apply Hthin; [reflexivity|]. cbn [store]. apply thinned_refl.
+    + apply Hthin; [reflexivity|]. cbn [store]. apply delete_node_thinned; exact I.
     + apply Hthin; [reflexivity|]. cbn [store]. apply delete_node_thinned; exact I.
     + apply Hthin; [reflexivity|]. cbn [store]. destruct b; cbn; apply thinned_nil.
   - unfold fetch in E. destruct (pfind k (primary s)) as [c|] eqn:Ef.
